@@ -27,6 +27,9 @@ OBLIGATIONS = [
     (P + "queued_code_is_final", "a queued completion is executed with the code it was queued with (exec step logs the popped item unchanged)"),
     (P + "exactly_once_if_running", "fairness: while not stopped/reset, an item at queue index i is invoked (once, with its code) after at most 2i+7 loop-thread steps, whatever other threads do in between"),
     (P + "ready_dispatches", "a reported readable/writeable/err event queues the armed handler of that fd with success / select_failed"),
+    (P + "kernel_report_not_lost", "generated reactor tables (epoll, poll, select): every kernel report over IN/PRI/OUT/ERR/HUP that ends a wait for readability (writability) translates to an event with in|err (out|err); a bare hang-up is never the empty event"),
+    (P + "registration_requests_armed_bits", "generated tables: registering reactor::in / out requests exactly the kernel's readable / writable bit"),
+    (P + "kernel_report_dispatches", "composition: such a kernel report on an armed descriptor queues the armed handler and empties its slot, on each back-end"),
     (P + "due_timer_queued", "run_one's expiry step queues every timer whose deadline <= now with success"),
     (P + "job_conservation", "pool: each posted job id is in exactly one of queue | held by a worker | ran | cancelled"),
     (P + "job_at_most_once", "pool: for all histories, a job runs at most once"),
@@ -86,11 +89,26 @@ def rand_prog(rng, idx, ns, nt, allow_arm):
 
 def gen_loop_case(rng, flavour):
     ns = rng.choice((1, 2, 2, 3))
+    np_ = rng.choice((0, 0, 1, 1, 2)) if flavour != "periodic" else 0
     nt = rng.choice((1, 2, 2))
+    ndev = ns + 2 * np_
+    # device f: sockets take both directions, a pipe's read end only `ar`, its write end only `aw`
+    def dirs(f):
+        return ("ar", "aw") if f < ns else (("ar",) if (f - ns) % 2 == 0 else ("aw",))
+    readable = [f for f in range(ndev) if "ar" in dirs(f)]
     nprog = rng.choice((1, 2, 3, 4))
     progs = [[]]
     for i in range(1, nprog):
         progs.append(rand_prog(rng, i, ns, nt, allow_arm=(flavour != "final")))
+    if flavour == "periodic":
+        # periodic-timer idiom: the completion handler of timer 0 re-arms timer 0 (chain of up to three re-arms)
+        nt = max(nt, 1)
+        chain = rng.choice((1, 2, 3))
+        progs = [[]]
+        for i in range(1, chain + 1):
+            extra = [rng.choice(("post:0", "dr:0", "pw:0"))] if rng.random() < 0.3 else []
+            progs.append([f"tm:0:{rng.choice((5, 10, 20, 40, 100, 100000))}:{i - 1}"] + extra)
+        nprog = len(progs)
     stops = flavour == "stop"
     if stops and nprog > 1 and rng.random() < 0.4:
         progs[rng.randrange(1, nprog)].append("st")
@@ -108,12 +126,17 @@ def gen_loop_case(rng, flavour):
                 script.append(f"pev:{p}:{rng.choice(list(CODES))}")
             elif r < 0.42:
                 dl = rng.choice((0, max(0, T - 1), T, T, T + 1, T + rng.randrange(1, 30)))
-                script.append(f"tm:{rng.randrange(nt)}:{dl}:{p}")
+                k_ = rng.randrange(nt)
+                if flavour == "periodic":
+                    k_ = nt - 1 if nt > 1 else 0
+                    if k_ == 0:
+                        continue        # timer 0 is the periodic one: armed once, below
+                script.append(f"tm:{k_}:{dl}:{p if flavour != 'periodic' else 0}")
             elif r < 0.5:
                 script.append(f"tc:{rng.randrange(nt)}")
             elif r < 0.68:
-                f = rng.randrange(ns)
-                d = rng.choice(("ar", "aw"))
+                f = rng.randrange(ndev)
+                d = rng.choice(dirs(f))
                 if armed.get((f, d)):
                     script.append(f"ca:{f}")
                     armed[(f, "ar")] = armed[(f, "aw")] = False
@@ -123,27 +146,29 @@ def gen_loop_case(rng, flavour):
             elif r < 0.71:
                 script.append(f"{rng.choice(('ar', 'aw'))}:x:{p}")
             elif r < 0.78:
-                f = rng.randrange(ns)
-                script.append(f"ca:{f}")
-            elif r < 0.81:
-                script.append(f"cl:{rng.randrange(ns)}")
-            elif r < 0.92:
-                script.append(f"pw:{rng.randrange(ns)}")
-            elif r < 0.95:
-                script.append(f"dr:{rng.randrange(ns)}")
+                script.append(f"ca:{rng.randrange(ndev)}")
+            elif r < 0.83:
+                # close: for a pipe this is "the writer goes away" / "the reader goes away"
+                script.append(f"cl:{rng.randrange(ndev)}")
+            elif r < 0.93:
+                script.append(f"pw:{rng.choice(readable)}")
+            elif r < 0.96:
+                script.append(f"dr:{rng.choice(readable)}")
             else:
                 script.append("post:0")
     if rng.random() < 0.4:
         ops_batch(rng.randrange(1, 4))      # before run(): reactor_ not created yet -> functors are queued
     script.append("start")
+    if flavour == "periodic":
+        script.append(f"tm:0:{rng.choice((0, 1, 5))}:{nprog - 1}")
     for _ in range(rng.randrange(2, 9)):
         ops_batch(rng.randrange(0, 4))
-        if rng.random() < 0.5:
-            T += rng.choice((0, 1, 1, 2, 5, 10))
+        if rng.random() < (0.5 if flavour != "periodic" else 0.85):
+            T += rng.choice((0, 1, 1, 2, 5, 10)) if flavour != "periodic" else rng.choice((1, 5, 10, 20, 50))
             script.append(f"T:{T}")
         for _ in range(rng.choice((1, 1, 2))):
             if rng.random() < 0.6:
-                f = rng.randrange(ns)
+                f = rng.randrange(ndev)
                 script.append(f"step:{f}")
                 # a reported fd may have fired either direction: the generator forgets both
                 armed[(f, "ar")] = armed[(f, "aw")] = False
@@ -158,16 +183,17 @@ def gen_loop_case(rng, flavour):
         if rng.random() < 0.6:
             script += ["rs", "start"]
             ops_batch(2)
-            script += ["step", f"step:{rng.randrange(ns)}"]
-    # final phase: cancel every timer, close every socket, let every pending deadline pass, settle
+            script += ["step", f"step:{rng.randrange(ndev)}"]
+    # final phase: cancel every timer, close every device, let every pending deadline pass, settle
     for k in range(nt):
         script.append(f"tc:{k}")
-    for f in range(ns):
+    for f in range(ndev):
         script.append(f"cl:{f}")
     script.append("T:1000000")
     script += ["step"] * 8
     ptxt = " ".join(f"P{i}={','.join(p) if p else '-'}" for i, p in enumerate(progs))
-    return f"L {ns} {nt} {ptxt} S {' '.join(script)}"
+    hdr = f"{ns}+{np_}" if np_ else f"{ns}"
+    return f"L {hdr} {nt} {ptxt} S {' '.join(script)}"
 
 
 def is_final_case(case):
@@ -213,13 +239,22 @@ def corpus_cases():
 
 # ------------------------------------------------------------------ canonicalisation / judge
 def canon(line):
-    line = re.sub(r"\s*\|\s*lost \d+\s*\|\s*stale \d+\s*$", "", line)
+    line = re.sub(r"\s*\|\s*lost \d+\s*\|\s*stale \d+\s*\|\s*due[ \d]*\|\s*mc[ \d]*$", "", line)
     return re.sub(r"\s+", " ", line).strip()
 
 
-def judge_line(case, impl_out):
-    """-> (J line for the Lean Spec predicates, or None when the output is not an observation)"""
+def judge_line(case, impl_out, model_raw=""):
+    """-> (J line for the Lean Spec predicates, or None when the output is not an observation).
+    `model_raw` supplies the scenario's expectations computed from the script and the kernel's semantics
+    (which armed handlers had their event reported, which waits were cancelled by their owner in time)."""
     w = case.split()
+    mm = re.search(r"\| due([ \d]*)\| mc([ \d]*)$", model_raw)
+    due = set(mm.group(1).split()) if mm else set()
+    mc = set(mm.group(2).split()) if mm else set()
+    if not is_final_case(case):
+        # "invoked for its event" / "completed with canceled" presuppose a loop that keeps running: after stop()
+        # a queued completion legitimately never runs, reset() legitimately drops it
+        due, mc = set(), set()
     if w[0] == "L":
         m = re.fullmatch(r"log(.*?)\| alive(.*?)\| kinds(.*?)\| phase (\w+)", impl_out)
         if not m:
@@ -239,7 +274,7 @@ def judge_line(case, impl_out):
             i, kind = parts[0], parts[1]
             dl = parts[2] if len(parts) > 2 else "0"
             c = calls.get(i, [0, 0, 0, 0])
-            obs.append(f"{i}:{kind}:{dl}:{c[0]}:{c[1]}:{c[2]}:{c[3]}:{1 if i in alive else 0}")
+            obs.append(f"{i}:{kind}:{dl}:{c[0]}:{c[1]}:{c[2]}:{c[3]}:{1 if i in alive else 0}:{1 if i in due else 0}:{1 if i in mc else 0}")
         reset = 1 if "rs" in w else 0
         if phase == "failed":
             return "J-run-threw"      # an exception left io_service::run(): failing input by itself
@@ -302,10 +337,10 @@ def main():
         corpus = []
     else:
         rng = c.rng
-        nloop = 2500 if thorough else 260
+        nloop = 3000 if thorough else 312
         cases = list(corpus)
         for k in range(nloop):
-            fl = ("final", "final", "free", "free", "stop")[k % 5]
+            fl = ("final", "final", "free", "free", "stop", "periodic")[k % 6]
             cases.append(gen_loop_case(rng, fl))
         for k in range(400 if thorough else 60):
             cases.append(gen_pool_case(rng, with_stop=False))
@@ -316,23 +351,27 @@ def main():
         cases = list(dict.fromkeys(cases))
 
     if hbin and os.path.exists(model) and cases:
-        # classify with the model first: scenarios that arm an occupied slot are instances of the known
-        # finding (hypothesis NoDoubleArm false); only the recorded witness of the corpus is replayed
-        rc, mo, err = c.run_lines(model, cases)
-        keep, dropped_da, dropped_stale = [], 0, 0
-        for cs, o in zip(cases, mo):
-            m = re.search(r"\| lost (\d+) \| stale (\d+)\s*$", o)
-            if m and cs not in corpus and not c.replay_path:
-                if int(m.group(1)) > 0:
-                    dropped_da += 1
-                    continue
-                if int(m.group(2)) > 0:
-                    dropped_stale += 1
-                    continue
-            keep.append(cs)
-        cases = keep
-        c.extra_cov["generated_cases_discarded_because_double_arm"] = dropped_da
-        c.extra_cov["generated_cases_discarded_because_arm_ran_after_close"] = dropped_stale
+        # classify with the model first, per back-end (what the kernel reports, hence which scenario a script
+        # becomes, depends on the back-end): scenarios that arm an occupied slot / run an arm after its descriptor
+        # was closed / cancel a stale timer id are instances of the known findings (hypotheses of the theorems
+        # false); only the recorded witnesses of the corpus are replayed for those
+        discarded = {"double_arm": 0, "arm_ran_after_close_or_stale_timer_id": 0}
+
+        def classify(cs_list, b):
+            rc, mo, err = c.run_lines(model, cs_list, ([b] if b != "pool" else []))
+            keep, raw = [], []
+            for cs, o in zip(cs_list, mo):
+                m = re.search(r"\| lost (\d+) \| stale (\d+) \|", o)
+                if m and cs not in corpus and not c.replay_path:
+                    if int(m.group(1)) > 0:
+                        discarded["double_arm"] += 1
+                        continue
+                    if int(m.group(2)) > 0:
+                        discarded["arm_ran_after_close_or_stale_timer_id"] += 1
+                        continue
+                keep.append(cs)
+                raw.append(o)
+            return keep, raw
         loopish = [cs for cs in cases if cs[0] in "LCX"]
         poolish = [cs for cs in cases if cs[0] == "K"]
         all_bad = []
@@ -354,6 +393,7 @@ def main():
         for b, cs_list in streams:
             if not cs_list:
                 continue
+            cs_list, raw_m = classify(cs_list, b)
             out_i, out_m, diffs, crashed = c.correspond(
                 b, cs_list, hbin, model, impl_args=([b] if b != "pool" else []), model_args=([b] if b != "pool" else []), canon=canon, nontrivial=nontriv,
                 timeout=3000)
@@ -364,7 +404,7 @@ def main():
             if crashed:
                 c.violation("sanitizer abort / crash of the real code", {"backend": b, "case": crashed["case"], "stderr": crashed["stderr"]})
             # judge every implementation output with the property predicates (Spec.lean)
-            jl = [(k, judge_line(cs_list[k], out_i[k])) for k in range(min(len(cs_list), len(out_i)))]
+            jl = [(k, judge_line(cs_list[k], out_i[k], raw_m[k] if k < len(raw_m) else "")) for k in range(min(len(cs_list), len(out_i)))]
             lean_j = [(k, l) for k, l in jl if l and l.startswith("J ") or l and l.startswith("JK ")]
             rcj, jout, jerr = c.run_lines(model, [l for _, l in lean_j])
             bad = []
@@ -408,6 +448,7 @@ def main():
                 for i, cs in enumerate(cs_list):
                     print("backend:", b); print("case :", cs); print("impl :", out_i[i] if i < len(out_i) else None)
                     print("model:", out_m[i] if i < len(out_m) else None)
+        c.extra_cov["generated_cases_discarded_per_backend_stream"] = discarded
         # known findings: each witness must still fail exactly as recorded (per back-end); anything else is a violation
         if not c.replay_path:
             for fid, what in ((D12_ID, "two on_readable on one descriptor: first handler destroyed without being invoked "
